@@ -228,3 +228,4 @@ pub proof fn lemma_opt_flatten<U>(opts: Seq<Option<U>>)
         }
     }
 }
+pub open spec fn derefseq<'a, T>(r: Seq<&'a T>) -> Seq<T> { Seq::new(r.len(), |i: int| *r[i]) }
